@@ -54,7 +54,7 @@ def main():
     n = len(rows)
     caught = sum(1 for d in mx.values() if d.startswith("VIOLATION"))
     concrete = sum(1 for d in mx.values() if d.startswith("VIOLATION, concrete"))
-    head = "Last full matrix run: **%d / %d caught by the check of their own property**, %d with a concrete failing input.\n\n" % (caught, len(mx), concrete)
+    head = "Last matrix run of each change (rounds 1–8: the full run of the fourth session; round 9: run in the fifth session, after the repair of the search): **%d / %d caught by the check of their own property**, %d with a concrete failing input.\n\n" % (caught, len(mx), concrete)
     p = os.path.join(VERIF, "DESIGN.md")
     s = open(p).read()
     a, b = "<!-- seeded-table:begin -->\n", "<!-- seeded-table:end -->\n"
